@@ -199,3 +199,44 @@ pub struct SubBad(pub Lin);
 pub struct SubGood(pub Lin);
 impl std::ops::Sub<Lin> for SubBad { type Output = Lin; fn sub(self, r: Lin) -> Lin { self.0 + r } }
 impl std::ops::Sub<Lin> for SubGood { type Output = Lin; fn sub(self, r: Lin) -> Lin { self.0 + (-r) } }
+
+// ---- normal form (sa.normalize): the same templates must give the same verdicts when the loop is an
+// ---- iterator chain with closures, and when the code sits in a helper unknown to the rules
+pub fn norm_loop_bad(m: &Msg) -> Vec<u64> {
+    m.a.iter().filter(|x| **x != 7).map(|x| *x).collect()
+}
+pub fn norm_loop_good(m: &Msg) -> Vec<u64> {
+    m.a.iter().map(|x| *x).collect()
+}
+pub fn norm_acc_bad(cs: &[f64], xs: &[f64]) -> f64 {
+    cs.iter().zip(xs).fold(0.0, |s, (c, x)| s - c * x)
+}
+pub fn norm_acc_good(cs: &[f64], xs: &[f64]) -> f64 {
+    cs.iter().zip(xs).map(|(c, x)| c * x).sum::<f64>()
+}
+pub fn norm_tryfold_bad(t: &HashMap<u64, f64>, ks: &[u64]) -> Result<f64, String> {
+    ks.iter().try_fold(0.0, |acc, k| Ok(acc + t.get(k).copied().unwrap_or(0.0)))
+}
+pub fn norm_tryfold_good(t: &HashMap<u64, f64>, ks: &[u64]) -> Result<f64, String> {
+    ks.iter().try_fold(0.0, |acc, k| Ok(acc + *t.get(k).ok_or_else(|| "missing".to_string())?))
+}
+fn xhelper_lookup_bad(t: &HashMap<u64, f64>, k: u64) -> Result<f64, String> {
+    Ok(t.get(&k).copied().unwrap_or(0.0))
+}
+fn xhelper_lookup_good(t: &HashMap<u64, f64>, k: u64) -> Result<f64, String> {
+    t.get(&k).copied().ok_or_else(|| "missing".to_string())
+}
+pub fn norm_helper_bad(t: &HashMap<u64, f64>, k: u64) -> Result<f64, String> {
+    let v = xhelper_lookup_bad(t, k)?;
+    Ok(v + 1.0)
+}
+pub fn norm_helper_good(t: &HashMap<u64, f64>, k: u64) -> Result<f64, String> {
+    let v = xhelper_lookup_good(t, k)?;
+    Ok(v + 1.0)
+}
+pub fn norm_collect_bad(t: &HashMap<u64, f64>, ks: &[u64]) -> Result<Vec<f64>, String> {
+    ks.iter().map(|k| Ok(t.get(k).copied().unwrap_or(0.0))).collect()
+}
+pub fn norm_collect_good(t: &HashMap<u64, f64>, ks: &[u64]) -> Result<Vec<f64>, String> {
+    ks.iter().map(|k| t.get(k).copied().ok_or_else(|| "missing".to_string())).collect()
+}
